@@ -19,7 +19,7 @@ RULE = ("Every tree of depth <= D whose nodes are plain sync/async managers, @co
         "normally and once through an exception raised in the body (generator-based managers are then driven by throw/athrow), each in both context-analysis modes (trickery; set_trickery_enabled(False), where the exiting manager may be listed a second time). Shadow tree from the "
         "program's own event log: inner_stack = the manager generator's frames and their contexts unless exiting (then those "
         "frames are in the main series and inner_stack is None); ExitStack children = registered-and-not-yet-popped callbacks in "
-        "order, with obj / is_async / registration method in description; recursion into children. evaluations = contexts "
+        "order, with obj / is_async / registration method in description; recursion into children. Each observation is repeated with the outermost frame hidden and pruning everything inward of it (an elaborate hook, as customize(hide=True, prune=True) installs): its context tree must be unfolded all the same. evaluations = contexts "
         "compared; distinct_nontrivial = distinct (tree, observation point).")
 ASSUMPTIONS = ["push(cm) is indistinguishable from enter_context(cm) and push_async_exit(acm) from enter_async_context(acm) (contextlib stores the same bound __exit__)",
                "for bound-method and wrapped-callback registrations obj may be the callable or the object it is bound to / wraps"]
@@ -345,6 +345,15 @@ def gen_frames(gen):
 
 
 REFERENTS = [False]
+_HP = {"on": False, "registered": False}
+
+
+def _hide_and_prune(frame, next_inner):
+    if _HP["on"]:
+        import stackscope
+        frame.hide = True
+        return stackscope.PRUNE
+    return None
 
 
 def ctxs_of(frame):
@@ -573,9 +582,31 @@ def _run_program(roots, raise_in_body=False):
                             live = [k for k in n.kids if not done_of(k)() or getattr(k.mgr, "exiting", False)]
                             if len(ctxs_of(x)) != len(live):
                                 problems.append("%s: exiting AG generator frame has %d contexts, expected %d" % (tag, len(ctxs_of(x)), len(live)))
-    # mark ExitStack exit calls
-    for cls in (ExitStack, AsyncExitStack):
-        pass
+        # the same frame when a customization hides it and prunes everything inward of it (what customize(hide=True,
+        # prune=True) does): its contexts must be unfolded exactly as before
+        if nodes and body_frames and nodes[0] in entered:
+            if not _HP["registered"]:
+                stackscope.elaborate_frame.register(body.__code__, _hide_and_prune)
+                _HP["registered"] = True
+            _HP["on"] = True
+            try:
+                with warnings.catch_warnings(record=True) as w2:
+                    warnings.simplefilter("always")
+                    st2 = stackscope.extract(co)
+            finally:
+                _HP["on"] = False
+            bf2 = [f for f in st2.frames if f.funcname == "body"]
+            if st2.error is not None or w2:
+                problems.append("%s/hidden+pruned: error %r warnings %r" % (tag, st2.error, [str(x.message)[:80] for x in w2]))
+            elif len(bf2) != 1 or len(st2.frames) != len(st.frames) - len(st.frames[st.frames.index(body_frames[0]) + 1:]) or not bf2[0].hide:
+                problems.append("%s/hidden+pruned: frames %r (hide flags %r)" % (tag, [f.funcname for f in st2.frames], [f.hide for f in bf2]))
+            else:
+                fctx2 = ctxs_of(bf2[0])
+                if len(fctx2) != 1:
+                    problems.append("%s/hidden+pruned: root 0: %d contexts" % (tag, len(fctx2)))
+                else:
+                    compare_ctx(fctx2[0], nodes[0], problems, counter, "%s/hidden+pruned/root0" % tag,
+                                exiting=(len(body_frames) == 1 and tag != "body"))
     try:
         tag = co.send(None)
         while True:
